@@ -144,9 +144,17 @@ IDIOMS = [
      r'shim::slices_equal(&\1, &\2)'),
     # R6f: the f64 digit-count estimate `(bits as f64 / LOG2_10) as u64` -> shim helper carrying float axiom A1
     ('R6.f64_digit_estimate', r'\(([A-Za-z_][A-Za-z0-9_]*\.bits\(\)) as f64 / LOG2_10\) as u64', r'shim::f64_digit_estimate(\1)'),
+    # R6f: `LOG2_10 * scale as f64` followed by `log_scale as u64` -> shim wrapper carrying float axiom A2
+    ('R6.f64_log2_scale', r'let log_scale = LOG2_10 \* scale as f64;', r'let log_scale = shim::F64Log2Scale::new(scale);'),
+    ('R6.f64_log2_scale_cast', r'\(log_scale as u64\)', r'(log_scale.as_u64())'),
+    # R6: `it.all(Zero::is_zero)` on a reversed slice iterator that has already been advanced
+    ('R6.rev_digits_iter', r'let mut (\w+) = (\w+)\.iter\(\)\.rev\(\);', r'let mut \1 = shim::RevDigits::new(&\2);'),
+    ('R6.rev_iter_all_zero', r'\b([ab]_it)\.all\(Zero::is_zero\)', r'\1.all_zero()'),
     # R2 reference patterns
     ('R2.split_last_ref', r'let \(&([a-z_0-9]+), ([a-z_0-9]+)\) = ([^;]*?)\.split_last\(\)\.unwrap\(\);',
      r'let (\1__r, \2) = \3.split_last().unwrap(); let \1 = *\1__r;'),
+    ('R2.match_some_ref_none', r'\(Some\(&(\w+)\), None\) => \{', r'(Some(\1__r), None) => { let \1 = *\1__r;'),
+    ('R2.match_none_some_ref', r'\(None, Some\(&(\w+)\)\) => \{', r'(None, Some(\1__r)) => { let \1 = *\1__r;'),
     ('R2.closure_tuple_param', r'\|\((\w+), (\w+)\)\| (\w+\.checked_sub\(\w+\))', r'|p__| { let (\1, \2) = p__; \3 }'),
     # R3 debug_assert_eq / _ne  (message dropped)
     ('R3.debug_assert_eq_carry', r'debug_assert_eq!\(carry, &0\);', r'debug_assert!(*carry == 0);'),
